@@ -133,8 +133,14 @@ class World(StackWorld):
         cfg["server"] = draw_list("s")
         cs = self.new_session("C")
         ss = self.new_session("S")
+        # the server application may decide about the connection asynchronously (its onConnect() returns a result that
+        # completes later) - and the peer may be gone by then
+        self.pending_onconnect = []
+        cfg["deferred_onconnect"] = ch.flag("server-onConnect-completes-later", 0.2)
+        cfg["cut_while_pending"] = cfg["deferred_onconnect"] and ch.flag("connection-cut-while-onConnect-pending", 0.6)
+        self.cut_done = False
         c, s = self.build_stack("ws", lambda: cs, lambda: ss, [make_ser(n, b) for n, b in cfg["client"]],
-                                [make_ser(n, b) for n, b in cfg["server"]])
+                                [make_ser(n, b) for n, b in cfg["server"]], server_protocol_wrap=self.wrap_server if cfg["deferred_onconnect"] else None)
         c.monitor = SenderMonitor("must")
         s.monitor = SenderMonitor("mustnot")
         self.hook_ws_monitor(c)
@@ -142,6 +148,28 @@ class World(StackWorld):
         self.start(s)
         self.start(c)
         self.sent_probe = False
+
+    def wrap_server(self, Base):
+        world = self
+
+        class DeferredOnConnect(Base):
+            def onConnect(self, request):
+                res = Base.onConnect(self, request)  # (a refusal is raised at once, as before)
+                f = world.fw.new_future(world)
+                world.pending_onconnect.append((f, res))
+                world.run.probe("server-onConnect-pending")
+                return f
+        return DeferredOnConnect
+
+    def resolve_onconnect(self):
+        f, res = self.pending_onconnect.pop(0)
+        self.fw.call(self, self.fw.resolve_future, f, res)
+
+    def cut_now(self):
+        self.cut_done = True
+        self.run.fault("cut-while-server-onConnect-pending")
+        self.c2s.reset()
+        self.s2c.reset()
 
     def hook_ws_monitor(self, e):
         e.http_done = False
@@ -662,8 +690,13 @@ class World(StackWorld):
                 # the peer answers our close frame - and then (see drain) does not drop TCP by itself
                 acts.append((2.0, "peer-close-reply", self.peer_close_reply))
         elif name == "ws-negotiate":
-            if not self.sent_probe and all(s.opens for s in self.sessions):
+            if not self.sent_probe and all(s.opens for s in self.sessions) and not self.cut_done:
                 acts.append((3.0, "probe-messages", self.ws_probe))
+            if self.pending_onconnect:
+                if self.cfg["cut_while_pending"] and not self.cut_done:
+                    acts.append((4.0, "cut", self.cut_now))
+                else:
+                    acts.append((3.0, "server-onConnect-completes", self.resolve_onconnect))
         elif name == "traffic":
             for who, e, sess in (("C", self.client, self.sessions[0]), ("S", self.server, self.sessions[1])):
                 if self.cursor[who] < len(self.plan[who]) and sess.opens and sess._transport is not None:
@@ -908,6 +941,14 @@ class World(StackWorld):
         run = self.run
         cfg = self.cfg
         cs, ss = self.sessions
+        if self.cut_done:
+            # the connection was cut while the server's onConnect() was pending: no session may be attached to the dead
+            # connection afterwards (told-once, checked for every mode, covers sessions attached before the cut)
+            for sess, e in zip(self.sessions, self.eps):
+                if sess.opens and sess.closes == 0 and e.t.is_gone():
+                    run.violate("C13.told-once", "session-attached-to-a-lost-connection-and-never-told", sess.name)
+            run.probe("ws-cut-while-onConnect-pending")
+            return
         cl = ["%s%s" % (n, ".batched" if b else "") for n, b in cfg["client"]]
         sl = ["%s%s" % (n, ".batched" if b else "") for n, b in cfg["server"]]
         common = [x for x in cl if x in sl]
